@@ -205,6 +205,7 @@ class World:
                 # feature mixins in front of and / or behind the interface class
                 ms['features'] = [(fn, rng.choice(['before', 'after'])) for fn in rng.sample(['HasVerifA', 'HasVerifB', 'HasVerifC'], rng.choice([1, 2]))]
         events, hw, cfg = [], {}, {}
+        self.cur_hw = hw
         for ms in mspecs:
             cls = modgen.build_class(ms, events, hw=hw)
             cfg[ms['name']] = modgen.module_cfg(ms, cls)
@@ -556,10 +557,23 @@ class World:
                     break
             if bad is None:
                 continue
-            try:
-                setattr(mod, p['name'], bad)
-            except Exception:
-                pass          # refusing the assignment loudly is fine as well
+            hw_ = getattr(self, 'cur_hw', None)
+            if hw_ is not None and p.get('has_write') and not p.get('readonly') and p.get('constant') is None and self.rng.random() < 0.5 and \
+                    p['spec']['type'] not in ('struct', 'tuple', 'array'):
+                # (leaf types only: a partial struct coming back is merged with the previous value - the mechanism of the listed
+                # nested-partial-struct finding of C01 / C04)
+                # the garbage comes back from a write method as the value the hardware holds now
+                hw_[('__readback__', mn, p['name'])] = bad
+                st, rep = self.ask(disp, conn, ('change', f'{mn}:{an}', p['default']))
+                hw_.pop(('__readback__', mn, p['name']), None)
+                r.count('garbage_read_back_from_write_methods')
+                if st == 'ok' and not self.check_emitted(desc, mn, an, rep[2][0], 'changed-reply-after-garbage', dict(case, garbage=repr(bad)[:100])):
+                    return False
+            else:
+                try:
+                    setattr(mod, p['name'], bad)
+                except Exception:
+                    pass          # refusing the assignment loudly is fine as well
             r.count('garbage_assignments')
             st, rep = self.ask(disp, conn, ('read', f'{mn}:{an}', None))
             if st == 'ok' and not self.check_emitted(desc, mn, an, rep[2][0], 'read-after-garbage', dict(case, garbage=repr(bad)[:100])):
